@@ -77,7 +77,7 @@ def simulate(S, evs, extra_occupied=(), label=""):
     return ("ok",), before, sim
 
 
-def judge(ctx, move, label, S, method, args, valid, expected_end, sig_extra=None, extra_occupied=()):
+def judge(ctx, move, label, S, method, args, valid, expected_end, sig_extra=None, extra_occupied=(), post=None):
     """run one library call; decide rejected / executable; compare with the documentation"""
     st, evs, extra = events.run_events(method, args, S)
     ctx.evaluations += 1
@@ -104,6 +104,11 @@ def judge(ctx, move, label, S, method, args, valid, expected_end, sig_extra=None
         if want is not None and got != want:
             moved = [(a, before_p, got.get(a)) for a, before_p in ((v, k) for k, v in before.items()) if got.get(a) != want.get(a)][:3]
             ctx.fail(dict(sig, kind="wrong-destination"), rep, f"{move} {label}: atoms do not end where documented, e.g. {[(a, tuple(map(float, p or (0, 0))), tuple(map(float, q or (0, 0)))) for a, p, q in moved]}")
+            return None
+    if valid and post is not None:
+        why = post(sim, before)
+        if why:
+            ctx.fail(dict(sig, kind="wrong-destination", detail="flags"), rep, f"{move} {label}: {why}")
             return None
     if valid:
         ctx.nt((move, label))
@@ -205,11 +210,44 @@ def waypoint_cases(ctx):
                         return None
                     m = dict(zip(src, dst))
                     return {a: m.get(p, p) for p, a in before.items()}
+                def post(sim, before, wps=wps, pick=pick, drop=drop):
+                    """what the pick/drop flags are documented to do when only one of them is set"""
+                    if not wps:
+                        return None
+                    src = [(F(p[0]), F(p[1])) for p in wps[0].positions]
+                    if pick and not drop:
+                        want_held = sorted(a for p, a in before.items() if p in src)
+                        if sorted(sim.held.values()) != want_held:
+                            return f"pick=True drop=False must leave the {len(want_held)} picked atoms in the tweezers, but {len(sim.held)} are held"
+                        lit = sorted(sim.spots().values())
+                        if lit != sorted((F(p[0]), F(p[1])) for p in wps[-1].positions):
+                            return "pick=True drop=False: the tweezers do not end at the last waypoint"
+                    if not pick and not drop and (sim.held or dict(sim.occ) != dict(before)):
+                        return "pick=False drop=False must not touch any atom"
+                    return None
                 overlap = len(wps) >= 2 and pick and drop and (set(wps[0].positions) & set(wps[-1].positions)) and list(wps[0].positions) != list(wps[-1].positions)
                 if overlap or (drop and not pick):
                     continue        # no compatible occupancy / nothing to release: outside the quantifier
                 judge(ctx, "waypoints.move_by_waypoints", f"{n} waypoints pick={pick} drop={drop} {[tuple(w.x_positions) + tuple(w.y_positions) for w in wps]}",
-                      S, waypoints.move_by_waypoints, (I(wps), pick, drop), valid, end)
+                      S, waypoints.move_by_waypoints, (I(wps), pick, drop), valid, end, post=post)
+    # the documented purpose of the flags: a transport split into legs (pick on the first, drop on the last)
+    from gen import kernels
+    two = kernels.define("@move\ndef two_legs(a, b):\n    move_by_waypoints(a, True, False)\n    move_by_waypoints(b, False, True)\n",
+                         move_by_waypoints=waypoints.move_by_waypoints)["two_legs"]
+    three = kernels.define("@move\ndef three_legs(a, b, c):\n    move_by_waypoints(a, True, False)\n    move_by_waypoints(b, False, False)\n"
+                           "    move_by_waypoints(c, False, True)\n", move_by_waypoints=waypoints.move_by_waypoints)["three_legs"]
+    for src_g, dst_g in itertools.permutations(subs, 2):
+        if set(src_g.positions) & set(dst_g.positions):
+            continue
+        for mid in mids:
+            def end2(before, src_g=src_g, dst_g=dst_g):
+                m = dict(zip([(F(p[0]), F(p[1])) for p in src_g.positions], [(F(p[0]), F(p[1])) for p in dst_g.positions]))
+                return {a: m.get(p, p) for p, a in before.items()}
+            lab = f"{tuple(src_g.x_positions) + tuple(src_g.y_positions)} -> {tuple(dst_g.x_positions) + tuple(dst_g.y_positions)} via {tuple(mid.x_positions)}"
+            judge(ctx, "waypoints.move_by_waypoints", "two legs (pick,no drop)+(no pick,drop) " + lab, S, two,
+                  (I([src_g, mid]), I([mid, dst_g])), True, end2)
+            judge(ctx, "waypoints.move_by_waypoints", "three legs " + lab, S, three,
+                  (I([src_g, mid]), I([mid, mid.shift(0.5, 0.0)]), I([mid.shift(0.5, 0.0), dst_g])), True, end2)
 
 
 def gemini_cases(ctx):
